@@ -132,6 +132,31 @@ func vfApplySurgery(frames [][]byte, op vfSurgery, filler []byte) (stream []byte
 			}
 		}
 		return out, op.Frame, false
+	case "relength":
+		// The length field is masked by XOR, so an attacker who knows (or guesses) a
+		// frame's true length L can set the decoded length to any value v: XOR the
+		// field with L^v and cut / extend the body to v bytes.
+		var out []byte
+		for i, f := range frames {
+			if i != op.Frame {
+				out = append(out, f...)
+				continue
+			}
+			l := len(f) - 2
+			v := op.Len
+			x := uint16(l) ^ uint16(v)
+			out = append(out, f[0]^byte(x>>8), f[1]^byte(x))
+			if v <= l {
+				out = append(out, f[2:2+v]...)
+			} else {
+				out = append(out, f[2:]...)
+				for len(filler) < v-l {
+					filler = append(filler, filler...)
+				}
+				out = append(out, filler[:v-l]...)
+			}
+		}
+		return out, op.Frame, false
 	case "truncate":
 		return append([]byte(nil), orig[:op.Off]...), frameAt(op.Off), true
 	}
@@ -263,7 +288,7 @@ func vfGenSurgery(rt *rapid.T, lens []int) vfSurgery {
 	for _, l := range lens {
 		total += l
 	}
-	kinds := []string{"flip", "flip", "flip", "insert", "delete", "dropframe", "dupframe", "swap", "replay", "truncate", "splice-body", "splice-body", "swap-length-fields"}
+	kinds := []string{"flip", "flip", "flip", "insert", "delete", "dropframe", "dupframe", "swap", "replay", "truncate", "splice-body", "splice-body", "swap-length-fields", "relength", "relength"}
 	k := rapid.SampledFrom(kinds).Draw(rt, "surgery")
 	f := rapid.IntRange(0, m-1).Draw(rt, "frame")
 	switch k {
@@ -283,6 +308,19 @@ func vfGenSurgery(rt *rapid.T, lens []int) vfSurgery {
 			return vfSurgery{Kind: k, Frame: f, Other: same[rapid.IntRange(0, len(same)-1).Draw(rt, "spliceFrom")]}
 		}
 		return vfSurgery{Kind: k, Frame: f, Other: rapid.IntRange(0, f-1).Draw(rt, "spliceFromAny")}
+	case "relength":
+		l := lens[f] - 2
+		v := rapid.SampledFrom([]int{16, 16, 17, 18, 19, 20, l - 1, l + 1, 1446}).Draw(rt, "newLength")
+		if rapid.IntRange(0, 3).Draw(rt, "newLengthFree") == 0 {
+			v = rapid.IntRange(16, 1446).Draw(rt, "newLengthAny")
+		}
+		if v == l || v < 16 {
+			v = 16
+			if l == 16 {
+				v = 17
+			}
+		}
+		return vfSurgery{Kind: k, Frame: f, Len: v}
 	case "swap-length-fields":
 		if m < 2 {
 			return vfSurgery{Kind: "dropframe", Frame: f}
@@ -328,7 +366,7 @@ func vfSpecLens(specs []vfFrameSpec) []int {
 func TestVerifC05Surgery(t *testing.T) {
 	vfSetup(t)
 	c := ev.For("C05")
-	c.Rule("surgery: the real client or server (victim) reads a stream produced by the reference peer: 1-7 generated frames (payload 0/1/1427/random, padding, unknown types, seed packets) followed by three genuine full frames; one surgery op in {flip one bit (length field, tag, body), insert 1-64 bytes, delete 1-64 bytes, drop / duplicate / swap whole frames, replay an earlier frame, splice the sealed body of an earlier (preferably equally long) frame behind a later frame's length field, swap two length fields, truncate}; the tampered stream is released in generated segments without EOF, reader buffer size generated; oracle: delivered bytes are always a prefix of the peer's payload and never exceed the payload of the frames that arrived intact before the first damaged frame; for every op but truncation Read has reported a non-EOF error by the time everything is read; no panic; non-trivial = at least one intact payload frame before and one frame after the damage; fingerprint = frames, op, chunk plan")
+	c.Rule("surgery: the real client or server (victim) reads a stream produced by the reference peer: 1-7 generated frames (payload 0/1/1427/random, padding, unknown types, seed packets) followed by three genuine full frames; one surgery op in {flip one bit (length field, tag, body), insert 1-64 bytes, delete 1-64 bytes, drop / duplicate / swap whole frames, replay an earlier frame, splice the sealed body of an earlier (preferably equally long) frame behind a later frame's length field, swap two length fields, set a frame's decoded length to a chosen value (minimum 16, 17..20, L+-1, maximum, any) through the XOR-malleable length field with the body cut / extended to match, truncate}; the tampered stream is released in generated segments without EOF, reader buffer size generated; oracle: delivered bytes are always a prefix of the peer's payload and never exceed the payload of the frames that arrived intact before the first damaged frame; for every op but truncation Read has reported a non-EOF error by the time everything is read; no panic; non-trivial = at least one intact payload frame before and one frame after the damage; fingerprint = frames, op, chunk plan")
 	c.Assume("Poly1305 forgery probability is negligible")
 	c.Floor("victim-client", 0.3)
 	c.Floor("victim-server", 0.3)
@@ -533,7 +571,7 @@ func FuzzVerifC05TamperedStream(f *testing.F) {
 	for _, l := range lens {
 		total += l
 	}
-	kinds := []string{"flip", "insert", "delete", "dropframe", "dupframe", "swap", "replay", "truncate", "splice-body", "swap-length-fields"}
+	kinds := []string{"flip", "insert", "delete", "dropframe", "dupframe", "swap", "replay", "truncate", "splice-body", "swap-length-fields", "relength"}
 	br := vfBridge{ID: refobfs4.NewIdentity(vfEnt(55)(52)), Seed: vfEnt(56)(24)}
 	f.Fuzz(func(t *testing.T, in []byte) {
 		if len(in) < 8 {
@@ -563,6 +601,11 @@ func FuzzVerifC05TamperedStream(f *testing.F) {
 			op.Other = int(in[6]) % op.Frame
 		case "swap-length-fields":
 			op.Frame = int(in[1]) % (len(specs) - 1)
+		case "relength":
+			op.Len = 16 + v%1431
+			if op.Len == lens[op.Frame]-2 {
+				op.Len = 16
+			}
 		case "truncate":
 			op.Off = v % total
 		}
